@@ -42,6 +42,7 @@ type retState struct {
 
 type Obligation struct {
 	Name   string
+	Group  string // name without the split suffix
 	Func   string
 	Props  []string
 	Kind   string
@@ -56,7 +57,7 @@ type Obligation struct {
 	Solver string
 	Time   float64
 	Model  string
-	Vars   map[string]*Term // named terms of interest for replay (parameter name -> term)
+	Watch  []WatchTerm // named terms whose model values are requested (replay / debugging)
 }
 
 type Exec struct {
@@ -79,6 +80,10 @@ type Exec struct {
 	curFn    []*ssa.Function
 	denseIntMaps map[string][2]int
 	callN        map[string]int
+	muted        bool
+	safetySeen   map[int][]*Term
+	watch        []WatchTerm
+	evalExprs    []string
 }
 
 func (x *Exec) trust(s string) { x.trusted[s] = true }
@@ -99,6 +104,9 @@ func (x *Exec) assumeGlobal(t *Term) {
 }
 
 func (x *Exec) oblige(st *State, kind, label string, goal *Term, note string) {
+	if x.muted {
+		return
+	}
 	g := Implies(st.pc, goal)
 	if g.IsTrue() {
 		return
@@ -109,17 +117,42 @@ func (x *Exec) oblige(st *State, kind, label string, goal *Term, note string) {
 	}
 	hy := make([]*Term, len(x.hyps))
 	copy(hy, x.hyps)
-	o := &Obligation{Name: name, Func: x.funcDisplayName(), Kind: kind, Hyps: hy, Goal: g, Note: note}
-	if x.hasCfg {
-		o.Config = fmt.Sprintf("%s=%d", x.cfgVar, x.cfgVal)
+	parts := x.unknownConjuncts(goal)
+	if len(parts) == 0 {
+		return
 	}
-	if x.contract != nil {
-		o.Props = x.contract.Props
+	mk := func(nm string, g *Term) {
+		o := &Obligation{Name: nm, Group: name, Func: x.funcDisplayName(), Kind: kind, Hyps: hy, Goal: g, Note: note, Watch: x.watch}
+		if x.hasCfg {
+			o.Config = fmt.Sprintf("%s=%d", x.cfgVar, x.cfgVal)
+		}
+		if x.contract != nil {
+			o.Props = x.contract.Props
+		}
+		x.obls = append(x.obls, o)
 	}
-	x.obls = append(x.obls, o)
+	if len(parts) > 1 && len(parts) <= 400 && (kind == "ensures" || kind == "callpre" || kind == "inv-entry" || kind == "inv-preserve") {
+		// split a conjunctive goal: one small query per conjunct (they are discharged in parallel)
+		for k, p := range parts {
+			g := Implies(st.pc, p)
+			if g.IsTrue() {
+				continue
+			}
+			mk(fmt.Sprintf("%s%%%d", name, k), g)
+		}
+		return
+	}
+	g = Implies(st.pc, And(parts...))
+	if g.IsTrue() {
+		return
+	}
+	mk(name, g)
 }
 
 func (x *Exec) cover(st *State, label string) {
+	if x.muted {
+		return
+	}
 	name := fmt.Sprintf("%s/cover:%s", x.funcDisplayName(), label)
 	if x.hasCfg {
 		name += fmt.Sprintf("@%s=%d", x.cfgVar, x.cfgVal)
@@ -141,6 +174,24 @@ func (x *Exec) safety(st *State, instr ssa.Instruction, kind string, goal *Term)
 	if Implies(st.pc, goal).IsTrue() {
 		return
 	}
+	// already established under a weaker path condition?
+	if x.safetySeen == nil {
+		x.safetySeen = map[int][]*Term{}
+	}
+	cur := conjSet(st.pc)
+	for _, old := range x.safetySeen[goal.id] {
+		sub := true
+		for id := range conjSet(old) {
+			if !cur[id] {
+				sub = false
+				break
+			}
+		}
+		if sub {
+			return
+		}
+	}
+	x.safetySeen[goal.id] = append(x.safetySeen[goal.id], st.pc)
 	pos := x.P.prog.Fset.Position(instr.Pos())
 	// name: kind + enclosing function + ordinal (positions shift with edits; ordinals keep names compact)
 	fnName := shortFuncName(instr.Parent())
@@ -233,6 +284,7 @@ func (x *Exec) allocObj(st *State, t types.Type) Val {
 	st.alloc = Add(st.alloc, IntLit(1))
 	p := Place{objPrefix(t), []*Term{ref}}
 	storePlace(st.heap, p, t, zeroVal(t))
+	initLocks(st.heap, p, t)
 	return Val{K: VPtr, Typ: types.NewPointer(t), Prefix: p.Prefix, Idx: p.Idx}
 }
 
@@ -479,6 +531,13 @@ func (x *Exec) mergeAt(b *ssa.BasicBlock, es []edgeState) *State {
 		if len(phis) == 0 {
 			break
 		}
+		if e.from == nil {
+			// synthetic entry: the state already binds the phis
+			for _, p := range phis {
+				phiVals[i] = append(phiVals[i], e.st.env[p])
+			}
+			continue
+		}
 		idx := -1
 		for k, p := range b.Preds {
 			if p == e.from {
@@ -487,9 +546,6 @@ func (x *Exec) mergeAt(b *ssa.BasicBlock, es []edgeState) *State {
 			}
 		}
 		if idx < 0 {
-			if e.from == nil {
-				unsupported("phi in entry block")
-			}
 			panic("internal: edge from non-predecessor")
 		}
 		for _, p := range phis {
@@ -585,6 +641,9 @@ func (x *Exec) runLoop(cfg *FuncCFG, l *Loop, entry []edgeState, rets *[]retStat
 			unsupported("loop %d of %s: unroll bound %s is not a literal under this configuration", l.Ordinal, shortFuncName(cfg.fn), spec.Unroll)
 		}
 		bound = int(n)
+	}
+	if spec != nil && spec.MapOrder == "asc" {
+		x.setupAscending(cfg, l, entry)
 	}
 	allExits := map[*ssa.BasicBlock][]edgeState{}
 	cur := entry
@@ -1147,10 +1206,35 @@ func (x *Exec) next(st *State, i *ssa.Next) {
 	kt, vt := mapTypes(m.Typ)
 	n := it.n
 	it.n++
+	if it.forced != nil || it.asc {
+		var ok, key *Term
+		if it.forced != nil {
+			if n < len(it.forced) {
+				ok, key = True(), it.forced[n]
+			} else {
+				ok, key = False(), IntLit(0)
+			}
+		} else {
+			if it.lo+n < it.hi {
+				ok, key = True(), IntLit(int64(it.lo+n))
+			} else {
+				ok, key = False(), IntLit(0)
+			}
+		}
+		val := loadPlace(st.heap, mapValPlace(m, key), vt)
+		x.noteLoaded(st, val)
+		st.env[i] = Val{K: VTuple, Fields: []Val{scalarVal(ok, types.Typ[types.Bool]), scalarVal(key, kt), val}}
+		return
+	}
 	ok := Lt(IntLit(int64(n)), it.lenAt)
 	key := FreshVar(fmt.Sprintf("key%d", n), SInt)
 	stOk := &State{pc: And(st.pc, ok), heap: st.heap, alloc: st.alloc}
 	x.assume(stOk, mapDom(st.heap, m, key))
+	if lo, hi, dense := x.P.keyRange(x, m); dense {
+		// finite-cardinality lemma: a map of length hi-lo that contains lo..hi-1 has no other key
+		x.assume(stOk, And(Le(IntLit(int64(lo)), key), Lt(key, IntLit(int64(hi)))))
+		x.trust("finite-cardinality lemma: a map of length n containing the keys 0..n-1 has no other key (premises are in the precondition, see config-cover)")
+	}
 	for _, k := range it.keys {
 		x.assume(stOk, Neq(key, k))
 	}
@@ -1216,4 +1300,217 @@ func constantBig(v constant.Value) (*big.Int, bool) {
 	s := v.ExactString()
 	b, ok := new(big.Int).SetString(s, 10)
 	return b, ok
+}
+
+// setupAscending: iterate an int-keyed map with a literal dense domain in ascending key order.
+// This is sound only when the loop body commutes for distinct keys and has no early exit; both
+// are established by the "commute" obligation generated here.
+func (x *Exec) setupAscending(cfg *FuncCFG, l *Loop, entry []edgeState) {
+	fnName := shortFuncName(cfg.fn)
+	var nx *ssa.Next
+	for _, in := range l.Header.Instrs {
+		if n, ok := in.(*ssa.Next); ok {
+			nx = n
+		}
+	}
+	if nx == nil {
+		unsupported("loop %d of %s: maporder asc on a loop that is not a map range", l.Ordinal, fnName)
+	}
+	itv, ok := entry[0].st.env[nx.Iter]
+	if !ok || itv.K != VIter {
+		unsupported("loop %d of %s: iterator not found", l.Ordinal, fnName)
+	}
+	it := itv.Iter
+	lo, hi, dense := x.P.keyRange(x, it.m)
+	if !dense {
+		unsupported("loop %d of %s: maporder asc needs a map whose length is bound by the configuration", l.Ordinal, fnName)
+	}
+	// ---- commutativity lemma ----
+	st0 := x.mergeAt(l.Header, entry)
+	sth := st0.clone()
+	for _, in := range l.Header.Instrs {
+		if p, ok := in.(*ssa.Phi); ok {
+			sth.env[p] = freshVal(p.Type(), "cm."+p.Comment)
+			x.noteLoaded(sth, sth.env[p])
+		}
+	}
+	written, _ := x.P.loopEffects(cfg, l)
+	for _, fam := range written {
+		if fi, ok := famReg[fam]; ok {
+			sth.heap.Set(fam, freshBase(fam+"!cm", fi.arity, fi.sort))
+		}
+	}
+	a, b := FreshVar("cm.a", SInt), FreshVar("cm.b", SInt)
+	x.assume(sth, And(Le(IntLit(int64(lo)), a), Lt(a, IntLit(int64(hi))), Le(IntLit(int64(lo)), b), Lt(b, IntLit(int64(hi))), Neq(a, b)))
+	run := func(keys []*Term) *State {
+		s := sth.clone()
+		s.env[nx.Iter] = Val{K: VIter, Iter: &mapIter{m: it.m, lenAt: it.lenAt, forced: keys}}
+		cur := []edgeState{{nil, s}}
+		for k := 0; k < 2; k++ {
+			var rets []retState
+			ex := x.runRegion(cfg, l, map[*ssa.BasicBlock][]edgeState{l.Header: cur}, &rets)
+			if len(rets) > 0 {
+				unsupported("loop %d of %s: maporder asc on a loop that returns from its body", l.Ordinal, fnName)
+			}
+			cur = nil
+			for t, ees := range ex {
+				if t == l.Header {
+					cur = append(cur, ees...)
+					continue
+				}
+				for _, e := range ees {
+					if !e.st.pc.IsFalse() {
+						unsupported("loop %d of %s: maporder asc on a loop with an early exit", l.Ordinal, fnName)
+					}
+				}
+			}
+			if len(cur) == 0 {
+				unsupported("loop %d of %s: body does not reach the back edge", l.Ordinal, fnName)
+			}
+			if k == 1 {
+				return x.mergeAt(l.Header, cur)
+			}
+		}
+		return nil
+	}
+	save := x.muted
+	x.muted = true
+	s1 := run([]*Term{a, b})
+	s2 := run([]*Term{b, a})
+	x.muted = save
+	goal := True()
+	for _, in := range l.Header.Instrs {
+		if p, ok := in.(*ssa.Phi); ok {
+			v1, v2 := s1.env[p], s2.env[p]
+			if v1.K == VOpaque || v2.K == VOpaque {
+				continue
+			}
+			goal = And(goal, valEq(v1, v2))
+		}
+	}
+	names := map[string]bool{}
+	for _, n := range s1.heap.Names() {
+		names[n] = true
+	}
+	for _, n := range s2.heap.Names() {
+		names[n] = true
+	}
+	for _, n := range sortedKeys(names) {
+		fi := famReg[n]
+		f1 := s1.heap.Get(n, fi.arity, fi.sort)
+		f2 := s2.heap.Get(n, fi.arity, fi.sort)
+		if f1 == f2 {
+			continue
+		}
+		idx := make([]*Term, fi.arity)
+		for i := range idx {
+			idx[i] = FreshVar("cm.i", SInt)
+		}
+		goal = And(goal, Eq(f1.Select(idx), f2.Select(idx)))
+	}
+	x.oblige(sth, "commute", fmt.Sprintf("%s.loop%d", fnName, l.Ordinal), goal, "map-range body commutes for distinct keys (justifies ascending iteration order)")
+	it.asc = true
+	it.lo, it.hi = lo, hi
+}
+
+// dropKnownConjuncts removes from a conjunctive goal the conjuncts that are literally among the
+// unconditional hypotheses (typically the unchanged part of an invariant).
+func (x *Exec) unknownConjuncts(goal *Term) []*Term {
+	known := map[int]bool{}
+	for _, h := range x.hyps {
+		if h.op == "and" {
+			for _, a := range h.args {
+				known[a.id] = true
+			}
+		} else {
+			known[h.id] = true
+		}
+	}
+	var parts []*Term
+	var split func(pre []*Term, g *Term, depth int)
+	split = func(pre []*Term, g *Term, depth int) {
+		if len(pre) == 0 && known[g.id] {
+			return
+		}
+		switch {
+		case g.op == "and" && depth < 4:
+			for _, a := range g.args {
+				split(pre, a, depth+1)
+			}
+		case g.op == "=>" && g.args[1].op == "and" && depth < 4:
+			np := append(append([]*Term{}, pre...), g.args[0])
+			for _, a := range g.args[1].args {
+				split(np, a, depth+1)
+			}
+		default:
+			if len(pre) == 0 && known[g.id] {
+				return
+			}
+			t := Implies(And(pre...), g)
+			if !t.IsTrue() {
+				parts = append(parts, t)
+			}
+		}
+	}
+	split(nil, goal, 0)
+	return parts
+}
+
+func (x *Exec) dropKnownConjuncts(pc, goal *Term) *Term {
+	known := map[int]bool{}
+	for _, h := range x.hyps {
+		if h.op == "and" {
+			for _, a := range h.args {
+				known[a.id] = true
+			}
+		} else {
+			known[h.id] = true
+		}
+	}
+	var parts []*Term
+	if goal.op == "and" {
+		for _, a := range goal.args {
+			if !known[a.id] {
+				parts = append(parts, a)
+			}
+		}
+	} else if !known[goal.id] {
+		parts = append(parts, goal)
+	}
+	return Implies(pc, And(parts...))
+}
+
+// initLocks: mutexes inside a freshly allocated object start unlocked.
+func initLocks(h *Heap, p Place, t types.Type) {
+	if isSyncType(t) {
+		f := h.Get(p.Prefix+"#held", len(p.Idx), SBool)
+		h.Set(p.Prefix+"#held", f.Store(p.Idx, False()))
+		return
+	}
+	if s := structFields(t); s != nil && kindOf(t) == VStruct {
+		if _, isArr := t.Underlying().(*types.Array); isArr {
+			return
+		}
+		for i := 0; i < s.NumFields(); i++ {
+			ft := s.Field(i).Type()
+			if isSyncType(ft) || (kindOf(ft) == VStruct && structFields(ft) != nil) {
+				initLocks(h, p.field(s.Field(i).Name()), ft)
+			}
+		}
+	}
+}
+
+func conjSet(t *Term) map[int]bool {
+	m := map[int]bool{}
+	if t.IsTrue() {
+		return m
+	}
+	if t.op == "and" {
+		for _, a := range t.args {
+			m[a.id] = true
+		}
+	} else {
+		m[t.id] = true
+	}
+	return m
 }
